@@ -521,3 +521,31 @@ Section Nodes.
     eapply gen_loop_occupies; eauto.
   Qed.
 End Nodes.
+
+(** ** child modules of one module are keyed by strictly increasing idents *)
+Lemma insert_str_sorted x : forall l,
+  StronglySorted str_lt l -> StronglySorted str_lt (insert_str x l).
+Proof.
+  induction l as [|y l IH]; intros Hs; cbn [insert_str].
+  - constructor; constructor.
+  - inversion Hs as [|y0 l0 Hs' Hall]; subst.
+    destruct (String.compare x y) eqn:C.
+    + exact Hs.
+    + constructor; [exact Hs|]. constructor; [exact C|].
+      rewrite Forall_forall in *. intros z Hz. eapply str_lt_trans; [exact C|]. apply Hall. exact Hz.
+    + constructor; [apply IH; exact Hs'|].
+      rewrite Forall_forall in *. intros z Hz. apply insert_str_In in Hz as [->|Hz].
+      * apply str_compare_gt_lt. exact C.
+      * apply Hall. exact Hz.
+Qed.
+
+Theorem child_names_unique (es : list entry) :
+  StronglySorted str_lt (child_names es) /\ NoDup (child_names es).
+Proof.
+  assert (Hs : StronglySorted str_lt (child_names es)).
+  { unfold child_names. induction es as [|e es IH]; cbn [fold_right]; [constructor|].
+    destruct (fst e) as [|h [|a tl]]; try exact IH. apply insert_str_sorted. exact IH. }
+  split; [exact Hs|].
+  induction Hs as [|x l Hs IH Hall]; constructor; [|exact IH].
+  intros Hin. rewrite Forall_forall in Hall. exact (str_lt_irrefl x (Hall _ Hin)).
+Qed.
